@@ -175,7 +175,7 @@ theorem replace_uniform (k n : Nat) (a : List Nat) (hk : a.length = k) (ha : ∀
 
 example : (sampleCmd 2 false true [some 0, some 1, some 2, some 3] [0, 3] == CmdRes.ok [2, 1]) = true := by decide
 example : (sampleCmd 2 false true [some 0, none] [] == (CmdRes.err : CmdRes Nat)) = true := by decide
-example : (sampleCmd (-1) false true [some 0] [] == (CmdRes.panic : CmdRes Nat)) = true := by decide
+example : (sampleCmd (-1) false true [some 0] [] == (CmdRes.err : CmdRes Nat)) = true := by decide
 
 /-- a readable input and a size `k ≥ 0`: the command writes exactly the reservoir -/
 theorem sampleCmd_noreplace (k : Nat) (items : List α) (d : List Nat) :
@@ -183,7 +183,7 @@ theorem sampleCmd_noreplace (k : Nat) (items : List α) (d : List Nat) :
   have h1 : ¬ ((k : Int) < 0) := by omega
   have h2 : (items.map some).any (·.isNone) = false := by simp
   have h3 : (items.map some).filterMap id = items := by simp [List.filterMap_map]
-  simp [sampleCmd, h2, h3]
+  simp [sampleCmd, sampleCmdWith, h2, h3]
 
 /-- an unreadable tree anywhere in the input: an error, nothing is written, whatever the draws -/
 theorem sampleCmd_err (k : Nat) (replace : Bool) (items : List (Option α)) (d : List Nat)
@@ -191,7 +191,7 @@ theorem sampleCmd_err (k : Nat) (replace : Bool) (items : List (Option α)) (d :
   have h1 : ¬ ((k : Int) < 0) := by omega
   have h2 : items.any (·.isNone) = true := by
     rw [List.any_eq_true]; exact ⟨none, h, rfl⟩
-  simp [sampleCmd, h2]
+  simp [sampleCmd, sampleCmdWith, h2]
 
 /-- `--replace` on `n ≥ 1` readable trees never dereferences an empty slot: the command writes
     the `k` slots of `sampleReplace` (to which `replace_uniform` applies) -/
@@ -215,7 +215,7 @@ theorem sampleCmd_replace (k n : Nat) (hn : 1 ≤ n) (d : List Nat) (hd : d ∈ 
     | none => simp at hs
     | some v => simp at hn'
   refine ⟨(sampleReplace k (List.range n) d).filterMap id, ?_, ?_⟩
-  · simp [sampleCmd, h2, h3, hnone]
+  · simp [sampleCmd, sampleCmdWith, h2, h3, hnone]
   · generalize sampleReplace k (List.range n) d = l at hall
     induction l with
     | nil => rfl
@@ -224,6 +224,15 @@ theorem sampleCmd_replace (k n : Nat) (hn : 1 ≤ n) (d : List Nat) (hd : d ∈ 
       cases o with
       | none => simp at hall
       | some v => simp [ih hall.2]
+
+/-- a negative `--nbtrees` is refused with an error, nothing is read or written (4c7dd84) … -/
+theorem sampleCmd_negative (k : Int) (hk : k < 0) (replace opened : Bool) (items : List (Option α)) (d : List Nat) :
+    sampleCmd k replace opened items d = CmdRes.err := by
+  simp [sampleCmd, sampleCmdWith, hk]
+
+/-- … where the command used to die in `make([]*tree.Tree, -1)` (`gotree sample -n -1`). -/
+theorem sampleCmd_pinned_fails :
+    (sampleCmdPinned (-1) false true [some 0, some 1] [] == (CmdRes.panic : CmdRes Nat)) = true := by decide
 
 /-- `reservoir_uniform` at the level of the command: among the draw lists of a run on `n` readable
     trees, exactly `(n-k)!` make it write the `k`-subset `s` -/
